@@ -9,6 +9,8 @@ from ..model import AnalysisError, Func, Program, walk_own
 from ..orderings import NotAFormula, eval_order, weak_orderings
 from ..report import Report
 from ..resolve import const_value, dotted, kwarg
+from ..absint import Client, Interp, RaiseExc
+from ..symenv import SymClient, run_sym
 from ..util import before, calls_in, ext_name, returns_of, src
 from .c10 import relation_formula_check
 
@@ -126,25 +128,36 @@ def r2_construction(prog, rep: Report, im):
     if isinstance(p, ast.Assign) and isinstance(p.targets[0], ast.Name):
         ss_var = p.targets[0].id
     found = False
+    from ..util import expand_all
+    flow = Flow(f.node)
     for n in walk_own(f.node):
         if isinstance(n, ast.If) and isinstance(n.test, ast.Compare) and len(n.test.ops) == 1:
-            sides = {src(n.test.left), src(n.test.comparators[0])}
-            if f"len({ss_var})" in sides and (f"len({mapping})" in sides or f"len({starts_arr[0]})" in sides):
+            # named intermediate values (`expected = len(mapping)`) read as their definitions
+            left_s = src(expand_all(n.test.left, flow, keep=(ss_var,) if ss_var else ()))
+            right_s = src(expand_all(n.test.comparators[0], flow, keep=(ss_var,) if ss_var else ()))
+            sides = {left_s, right_s}
+            if f"len({ss_var})" in sides and (f"len({mapping})" in sides or f"len({starts_arr[0]})" in sides
+                                               or f"len({ends_arr[0]})" in sides or f"len({vals_arr[0]})" in sides):
                 found = True
                 op = n.test.ops[0]
                 exc = _raises(n.body)
                 ok = isinstance(op, (ast.NotEq, ast.Lt, ast.Gt)) and exc == "KeyError"
-                if isinstance(op, ast.Lt) and src(n.test.left) != f"len({ss_var})":
+                if isinstance(op, ast.Lt) and left_s != f"len({ss_var})":
                     ok = False
-                if isinstance(op, ast.Gt) and src(n.test.left) == f"len({ss_var})":
+                if isinstance(op, ast.Gt) and left_s == f"len({ss_var})":
                     ok = False
                 rep.check("C16.R2", f, "disjointness:length-test", ok,
                           f"`{src(n.test)}` raises KeyError when spans were merged",
                           f"length test `{src(n.test)}` / exception {exc} does not reject merged (overlapping) intervals with KeyError",
                           scenario="overlapping intervals are accepted or rejected with the wrong exception type", line=n.lineno)
     if not found:
-        rep.viol("C16.R2", f, "disjointness:length-test", "no comparison of len(span_set) with the number of intervals",
-                 scenario="overlapping intervals are accepted")
+        uses = [n for n in walk_own(f.node) if isinstance(n, ast.Name) and n.id == ss_var and isinstance(n.ctx, ast.Load)]
+        if ss_var is not None and uses:
+            rep.unrec("C16.R2", f, "disjointness:length-test", f"the span set `{ss_var}` is used, but not in a recognised comparison of "
+                      "its length with the number of intervals")
+        else:
+            rep.viol("C16.R2", f, "disjointness:length-test", "the span set is never compared with the number of intervals",
+                     scenario="overlapping intervals are accepted")
 
 
 def interval_roles(init: Func) -> Dict[str, str]:
@@ -219,24 +232,27 @@ def r3_lookup(prog, rep: Report, im):
     rep.rule("C16.R3", "lookup: closed-interval idiom (bisect_left over the sorted ends, miss if index == len, miss if key < "
              "start of the candidate; both misses raise KeyError); candidate start and value are taken through the same "
              "permutation index; sorted ends and their permutation are built index-aligned", floor=5)
-    f = prog.method_view(im, "__getitem__")
+    f = prog.resolve(im, "__getitem__")
     init = prog.method_view(im, "__init__")
     rep.fn(f, init)
     key = f.params[1]
-    flow = Flow(f.node)
-    bis = [c for c in calls_in(f.node) if (ext_name(prog, f, c) or "").startswith("bisect.")]
+    # the look-up is read through symbolic values (sa/symenv.py): helpers are inlined by the engine, named intermediate values
+    # and the arrangement of the tests do not matter.  First pass: which array is bisected, with which function
+    disc = _Lookup(prog, None, {})
+    it0, _ = run_sym(prog, disc, f, im)
+    if it0.unrecognised:
+        rep.unrec("C16.R3", f, "bisect", "; ".join(it0.unrecognised))
+        return
+    bis = sorted(disc.bisects)
     if len(bis) != 1:
         rep.unrec("C16.R3", f, "bisect", f"expected one bisect call, found {len(bis)}")
         return
-    b = bis[0]
-    fn = ext_name(prog, f, b)
-    arr = dotted(b.args[0]) if b.args else None
-    p = getattr(b, "_parent", None)
-    idx = p.targets[0].id if isinstance(p, ast.Assign) and isinstance(p.targets[0], ast.Name) else None
-    if arr is None or idx is None or len(b.args) != 2 or src(b.args[1]) != key:
-        rep.unrec("C16.R3", f, "bisect", f"bisect call shape not recognised: {src(b)}")
+    fn, bargs = bis[0]
+    if len(bargs) != 2 or bargs[0][:2] != ("attr", ("self",)) or bargs[1] != ("p", key):
+        rep.unrec("C16.R3", f, "bisect", f"bisect call shape not recognised: {fn}{bargs}")
         return
-    sorted_arr = arr[1]
+    sorted_arr = bargs[0][2]
+    memo_fields = sorted(disc.stored_fields)
     # how the sorted array is built in __init__: for i, e in sorted(enumerate(X), key=lambda x: x[1])
     perm_arr, built_from, aligned = None, None, False
     for n in walk_own(init.node):
@@ -300,143 +316,458 @@ def r3_lookup(prog, rep: Report, im):
     rep.check("C16.R3", f, "bisect", fn == "bisect.bisect_left",
               f"bisect_left(self.{sorted_arr}, key): smallest end >= key",
               f"{fn} over the sorted ends: a key equal to an interval end selects the next interval",
-              scenario="m = ImmutIntervalMap({(1, 5): 'a', (7, 9): 'b'}); m[5] raises KeyError (5 is inside [1, 5])",
-              line=b.lineno)
-    # miss 1: idx == len(sorted) -> KeyError, dominating the subscripts
-    miss1 = None
-    miss2 = None
-    cand = None
-    for n in walk_own(f.node):
-        if isinstance(n, ast.If) and isinstance(n.test, ast.Compare) and len(n.test.ops) == 1:
-            l, r = n.test.left, n.test.comparators[0]
-            sides = {src(l), src(r)}
-            if idx in sides and f"len(self.{sorted_arr})" in sides:
-                miss1 = n
-            elif key in sides and before(f.node, b, n):
-                miss2 = n
-        if isinstance(n, ast.Assign) and isinstance(n.value, ast.Subscript) and dotted(n.value.value) == (f.self_name, perm_arr) \
-                and src(n.value.slice) == idx and isinstance(n.targets[0], ast.Name):
-            cand = n.targets[0].id
-    if miss1 is None:
-        # alternative idiom: a guard before the bisect, `key > self.<ends>[-1]` -> KeyError; equivalent on a non-empty map,
-        # and on the empty map only if an emptiness test comes first (self.<ends>[-1] raises IndexError there)
-        S = f"{f.self_name}.{sorted_arr}"
-        alt = None
-        for n in walk_own(f.node):
-            if isinstance(n, ast.If) and before(f.node, n, b) and _raises(n.body) == "KeyError":
-                parts = n.test.values if isinstance(n.test, ast.BoolOp) and isinstance(n.test.op, ast.Or) else [n.test]
-                for k, pt in enumerate(parts):
-                    if isinstance(pt, ast.Compare) and len(pt.ops) == 1:
-                        l, r, op = src(pt.left), src(pt.comparators[0]), pt.ops[0]
-                        if (l == key and r == f"{S}[-1]" and isinstance(op, ast.Gt)) or (l == f"{S}[-1]" and r == key and isinstance(op, ast.Lt)):
-                            empt = {f"not {S}", f"len({S}) == 0", f"0 == len({S})", f"len({S}) < 1"}
-                            earlier = any(src(q) in empt for q in parts[:k])
-                            before_ = any(isinstance(m, ast.If) and before(f.node, m, n) and src(m.test) in empt
-                                         and _raises(m.body) == "KeyError" for m in walk_own(f.node))
-                            alt = (n, earlier or before_)
-        if alt is not None and alt[1]:
-            rep.ok("C16.R3", f, "miss:beyond-last", f"`{src(alt[0].test)}` raises KeyError before the bisect (emptiness tested first)")
-        elif alt is not None:
-            rep.viol("C16.R3", f, "miss:beyond-last", f"`{src(alt[0].test)}` replaces the test of the bisect index against "
-                     f"len(self.{sorted_arr}) but evaluates self.{sorted_arr}[-1] without an emptiness test",
-                     scenario="any lookup (and `key in m`) on ImmutIntervalMap({}) raises IndexError instead of KeyError / False",
-                     line=alt[0].lineno)
-        else:
-            rep.viol("C16.R3", f, "miss:beyond-last", f"no test of the bisect index against len(self.{sorted_arr})",
-                     scenario="a key greater than every interval end raises IndexError instead of KeyError")
-    else:
-        op = miss1.test.ops[0]
-        left_is_idx = src(miss1.test.left) == idx
-        ok = (isinstance(op, ast.Eq)) or (isinstance(op, ast.GtE) and left_is_idx) or (isinstance(op, ast.LtE) and not left_is_idx)
-        rep.check("C16.R3", f, "miss:beyond-last", ok and _raises(miss1.body) == "KeyError",
-                  f"`{src(miss1.test)}` raises KeyError", f"`{src(miss1.test)}` does not raise KeyError exactly when no end >= key",
-                  scenario="a key greater than every interval end raises IndexError / a key inside the last interval raises KeyError",
-                  line=miss1.lineno)
-    if cand is None:
-        rep.unrec("C16.R3", f, "candidate", f"candidate index `x = self.{perm_arr}[{idx}]` not found")
+              scenario="m = ImmutIntervalMap({(1, 5): 'a', (7, 9): 'b'}); m[5] raises KeyError (5 is inside [1, 5])")
+    if fn != "bisect.bisect_left":
         return
-    # start of the candidate and returned value through the same index
-    start_var, start_arr = None, None
-    for n in walk_own(f.node):
-        if isinstance(n, ast.Assign) and isinstance(n.value, ast.Subscript) and src(n.value.slice) == cand \
-                and isinstance(n.targets[0], ast.Name):
-            d = dotted(n.value.value)
-            if d and len(d) == 2:
-                start_var, start_arr = n.targets[0].id, d[1]
-    rets = returns_of(f.node)
-    ret_ok = len(rets) == 1 and isinstance(rets[0].value, ast.Subscript) and src(rets[0].value.slice) == cand \
-        and src(rets[0].value.value) == roles.get("values")
-    rep.check("C16.R3", f, "candidate", start_var is not None and f"{f.self_name}.{start_arr}" == roles.get("starts") and ret_ok,
-              f"start = self.{start_arr}[{cand}], result = {src(rets[0].value) if rets else '?'}: same permutation index",
-              "candidate start and returned value are not both subscripted with the candidate's permutation index",
-              scenario="lookup returns the value of another interval")
-    if miss2 is None or start_var is None:
-        rep.viol("C16.R3", f, "miss:before-start", "no test of the key against the candidate interval's start",
-                 scenario="a key in the gap between two intervals returns the value of the next interval")
-    else:
-        W = weak_orderings([key, start_var])
-        try:
-            bad = [w for w in W if eval_order(miss2.test, w) != (w[key] < w[start_var])]
-            rep.count("orderings_evaluated", len(W))
-            rep.check("C16.R3", f, "miss:before-start", not bad and _raises(miss2.body) == "KeyError",
-                      f"`{src(miss2.test)}` raises KeyError exactly when key < start (3 orderings)",
-                      f"`{src(miss2.test)}` is wrong for the ordering {bad[0] if bad else ''} / raises {_raises(miss2.body)}",
-                      scenario="m = ImmutIntervalMap({(1, 5): 'a'}); m[1] raises KeyError (the start is inclusive), or m[0] returns 'a'",
-                      line=miss2.lineno)
-        except NotAFormula as ex:
-            rep.unrec("C16.R3", f, "miss:before-start", f"start test is not a comparison of key and start: {ex}")
+    names = {"sorted": sorted_arr, "perm": perm_arr,
+             "starts": (roles.get("starts") or "self.?").split(".", 1)[1], "values": (roles.get("values") or "self.?").split(".", 1)[1]}
+    # the arrays are written by the constructor only (else reads on both sides of a write must be kept apart)
+    arrays = {names["sorted"], names["perm"], names["starts"], names["values"]}
+    mutated = False
+    for m_ in im.methods.values():
+        if m_.name == "__init__" or m_.self_name is None:
+            continue
+        for n in walk_own(m_.node):
+            d_ = dotted(n) if isinstance(n, ast.Attribute) else None
+            if d_ and len(d_) == 2 and d_[0] == m_.self_name and d_[1] in arrays:
+                par = getattr(n, "_parent", None)
+                if isinstance(n.ctx, (ast.Store, ast.Del)) or (isinstance(par, ast.Subscript) and isinstance(par.ctx, (ast.Store, ast.Del))) \
+                        or (isinstance(par, ast.Attribute) and par.attr in ("append", "insert", "pop", "remove", "clear", "extend", "sort", "reverse")):
+                    mutated = True
+    names["frozen"] = not mutated
+    # one run per *world*: the map is empty / the key lies beyond the last end / before the candidate's start / on it / inside
+    expect = {"empty": "KeyError", "beyond": "KeyError", "before": "KeyError", "on-start": "value", "inside": "value"}
+    role_of = {"empty": "miss:beyond-last", "beyond": "miss:beyond-last", "before": "miss:before-start", "on-start": "candidate",
+               "inside": "candidate"}
+    verdicts: Dict[str, List] = {}
+    # a one-entry memo (fields of the object that the look-up itself stores) is admitted under the invariant
+    #     INV:  <key field> is None  or  (<key field> is a key found before and <value field> is its value),
+    # assumed at entry and checked at every exit of every world, the raising ones included
+    memo = None
+    if memo_fields:
+        probe = _Lookup(prog, "inside", names)
+        probe.memo = ("?", "?")
+        run_sym(prog, probe, f, im)
+        kf = sorted({a for a, t in probe.memo_stores if t == "KEY"})
+        vf = sorted({a for a, t in probe.memo_stores if t == "V"})
+        other = sorted({a for a, t in probe.memo_stores if t not in ("KEY", "V", "NONE")})
+        if len(kf) == 1 and len(vf) == 1 and set(memo_fields) == {kf[0], vf[0]} and not other:
+            memo = (kf[0], vf[0])
+        else:
+            rep.unrec("C16.R3", f, "candidate", f"the look-up stores into fields of the map ({memo_fields}) that do not form a "
+                      "(remembered key, remembered value) pair")
+            return
+    memo_bad: List[str] = []
+    for world, want in expect.items():
+        cl = _Lookup(prog, world, names)
+        cl.memo = memo
+        it, ex = run_sym(prog, cl, f, im)
+        if memo is not None and not it.unrecognised:
+            for st_ in list(ex.ret | ex.normal) + [s_ for s_, _ in ex.exc]:
+                m = cl.memo_exit(st_)
+                if m:
+                    memo_bad.append(f"{WORLD_TEXT[world]}: {m}")
+        rep.count("worlds_evaluated", 1)
+        if it.unrecognised:
+            verdicts.setdefault(role_of[world], []).append(("unrec", "; ".join(it.unrecognised)))
+            continue
+        outcomes = set()
+        for st_ in ex.ret | ex.normal:
+            t = cl.returned(st_)
+            is_v = t == cl.V or (memo is not None and "memo-hit" in (st_[2] or ()) and t == ("attr", ("self",), memo[1], 0))
+            outcomes.add((("value" if is_v else f"return of {_show(t)}"), "undecided" in (st_[2] or ())))
+        for st_, nm in ex.exc:
+            outcomes.add((nm or "an exception", "undecided" in (st_[2] or ())))
+        wrong = sorted(o for o in outcomes if o[0] != want)
+        if not outcomes:
+            verdicts.setdefault(role_of[world], []).append(("unrec", f"no exit found in the world '{world}'"))
+        elif not wrong:
+            verdicts.setdefault(role_of[world], []).append(("ok", f"{world}: {want}"))
+        elif all(u for _, u in wrong):
+            verdicts.setdefault(role_of[world], []).append(("unrec", f"in the world '{world}' the outcome depends on a test that is "
+                                                            f"not about the key, the bisect index or the candidate: {cl.undecided[:2]}"))
+        else:
+            got = ", ".join(o for o, u in wrong if not u)
+            verdicts.setdefault(role_of[world], []).append(("viol", f"{WORLD_TEXT[world]}: expected {want}, the look-up ends with {got}"))
+    scen = {"miss:beyond-last": "a key greater than every interval end (or any key on the empty map) raises IndexError / returns "
+                                "instead of raising KeyError",
+            "miss:before-start": "m = ImmutIntervalMap({(1, 5): 'a'}); m[0] returns 'a' (the gap before an interval belongs to nobody), "
+                                 "or m[1] raises KeyError (the start is inclusive)",
+            "candidate": "the look-up returns the value of another interval, or raises for a key inside an interval"}
+    if memo_bad:
+        verdicts.setdefault("candidate", []).append(("viol", "the remembered (key, value) pair is left inconsistent " + sorted(set(memo_bad))[0]))
+    for role in ("miss:beyond-last", "miss:before-start", "candidate"):
+        vs = verdicts.get(role, [])
+        bad = [m for k, m in vs if k == "viol"]
+        un = [m for k, m in vs if k == "unrec"]
+        if bad:
+            rep.viol("C16.R3", f, role, "; ".join(bad), scenario=scen[role])
+        elif un:
+            rep.unrec("C16.R3", f, role, "; ".join(un))
+        else:
+            rep.ok("C16.R3", f, role, "; ".join(m for _, m in vs))
+
+
+WORLD_TEXT = {"empty": "on the empty map", "beyond": "for a key greater than every interval end",
+              "before": "for a key smaller than the start of the first interval whose end is >= key",
+              "on-start": "for a key equal to the start of its interval", "inside": "for a key inside its interval"}
+
+
+def _show(t) -> str:
+    if not isinstance(t, tuple):
+        return repr(t)
+    if t[0] == "c":
+        return repr(t[1])
+    if t[0] == "attr":
+        return f"{_show(t[1])}.{t[2]}"
+    if t[0] == "sub":
+        return f"{_show(t[1])}[{_show(t[2])}]"
+    if t[0] == "self":
+        return "self"
+    if t[0] == "p":
+        return t[1]
+    if t[0] in ("call", "mcall"):
+        return f"{t[1]}(..)"
+    return t[0]
+
+
+def _subterms(t):
+    if isinstance(t, tuple):
+        yield t
+        for x in t[1:]:
+            if isinstance(x, tuple):
+                yield from _subterms(x)
+
+
+def _show_deep(t) -> str:
+    if not isinstance(t, tuple):
+        return repr(t)
+    if t[0] == "tuple":
+        return "(" + ", ".join(_show_deep(x) for x in t[1:]) + ")"
+    if t[0] == "elem":
+        return f"<element of {_show_deep(t[1])}>"
+    if t[0] == "idx":
+        return "<position>"
+    if t[0] == "sub":
+        return f"{_show_deep(t[1])}[{_show_deep(t[2])}]"
+    return _show(t)
+
+
+class _IterYields(SymClient):
+    def __init__(self):
+        super().__init__()
+        self.yields = set()
+
+    def should_inline(self, func, call, ctx):
+        return func.cls is not None and not func.cls.is_external and func.name != "__init__"
+
+    def on(self, kind, node, env, ver, user, ctx):
+        if kind == "yield" and isinstance(node, ast.Yield):
+            self.yields.add(self.sym(node.value, env, ver, ctx))
+        return None
+
+
+class _ContainsPaths(Client):
+    """state = (self[key] completed on this path, name of the exception handler the path is in)"""
+
+    def __init__(self, key):
+        self.key = key
+        self.returns = set()
+
+    def should_inline(self, func, call, ctx):
+        return False
+
+    def handler_entry(self, handler, trace_states, ctx):
+        # the handler is entered by the look-up raising: from the states in front of it
+        return {s_ for s_ in trace_states if not s_[0]} or trace_states
+
+    def event(self, kind, node, state, ctx):
+        looked, handler = state
+        if kind in ("subscript", "proto_call") and isinstance(node, ast.Subscript) and ctx.scope.is_self(node.value) \
+                and isinstance(node.slice, ast.Name) and node.slice.id == self.key:
+            return ((True, handler),)
+        if kind == "call" and isinstance(node, ast.Call) and isinstance(node.func, ast.Attribute) and node.func.attr == "__getitem__" \
+                and ctx.scope.is_self(node.func.value):
+            return ((True, handler),)
+        if kind == "handler":
+            nm = src(node.type) if node.type is not None else "BaseException"
+            return ((looked, nm.split(".")[-1]),)
+        if kind == "return":
+            v = node.value
+            val = v.value if isinstance(v, ast.Constant) else src(v) if v is not None else None
+            self.returns.add((val, state))
+        return (state,)
+
+
+class _Lookup(SymClient):
+    """ImmutIntervalMap.__getitem__ in one world (see r3_lookup); world None = discovery pass (every test undecided)"""
+
+    def __init__(self, prog, world, names):
+        super().__init__()
+        self.P, self.world = prog, world
+        self.bisects = set()
+        self.undecided: List[str] = []
+        me = ("self",)
+        if names:
+            self.S = ("attr", me, names["sorted"])
+            self.PERM = ("attr", me, names["perm"])
+            self.STARTS = ("attr", me, names["starts"])
+            self.VALUES = ("attr", me, names["values"])
+            if names.get("frozen"):
+                self.frozen = {self.S, self.PERM, self.STARTS, self.VALUES}
+        else:
+            self.S = self.PERM = self.STARTS = self.VALUES = None
+        self.V = None
+        self.memo = None                  # (key field, value field) of a one-entry memo, ("?", "?") while probing
+        self.memo_stores = set()
+
+    def should_inline(self, func, call, ctx):
+        return func.cls is not None and not func.cls.is_external and func.name != "__init__"
+
+    def _entry(self, field):
+        return ("attr", ("self",), field, 0)
+
+    def memo_exit(self, state) -> Optional[str]:
+        """None when the memo fields satisfy INV at this exit, else what is wrong"""
+        env = dict(state[0])
+        kf, vf = self.memo
+        k = env.get(("h", kf), self._entry(kf))
+        v = env.get(("h", vf), self._entry(vf))
+        hit_world = self.world in ("on-start", "inside")
+        flags = state[2] or ()
+        key = ("p", self.root_params[1]) if len(self.root_params) > 1 else None
+        if k == self._entry(kf) and v == self._entry(vf):
+            return None
+        if k == ("c", None):
+            return None
+        if k == key:
+            if not hit_world:
+                return f"self.{kf} remembers the key although the look-up fails (the next look-up of that key answers from self.{vf})"
+            if v == self.V or (v == self._entry(vf) and "memo-hit" in flags):
+                return None
+            return f"self.{kf} is set to the key while self.{vf} is not the value found for it"
+        if k == self._entry(kf) and "memo-hit" in flags and v == self.V:
+            return None
+        return f"self.{kf} / self.{vf} are changed to something that is not (key, value found)"
+
+    # term classification ------------------------------------------------------------------------------------------------
+    def _is_I(self, t):
+        return isinstance(t, tuple) and t[0] == "call" and t[1].endswith("bisect_left") and len(t[2]) == 2 and t[2][0] == self.S
+
+    def _is_C(self, t):
+        return isinstance(t, tuple) and t[0] == "sub" and t[1] == self.PERM and self._is_I(t[2])
+
+    def _role(self, t):
+        if self._is_I(t):
+            return "I"
+        if isinstance(t, tuple) and t[0] == "call" and t[1] == "len" and len(t[2]) == 1 and t[2][0] in (self.S, self.PERM, self.STARTS, self.VALUES, ("self",)):
+            return "LEN"
+        if isinstance(t, tuple) and t[0] == "p" and t == ("p", self.root_params[1] if len(self.root_params) > 1 else "?"):
+            return "KEY"
+        if isinstance(t, tuple) and t[0] == "sub" and t[1] == self.STARTS and self._is_C(t[2]):
+            return "START"
+        if isinstance(t, tuple) and t[0] == "sub" and t[1] == self.S and t[2] == ("c", -1):
+            return "LAST"
+        if isinstance(t, tuple) and t[0] == "sub" and t[1] == self.S and self._is_I(t[2]):
+            return "END"
+        if t == ("c", 0):
+            return "ZERO"
+        return None
+
+    def _order(self, a, b):
+        """-1 / 0 / 1 / None: how the values of two roles compare in this world"""
+        w = self.world
+        hit = w in ("before", "on-start", "inside")
+        tab = {
+            ("I", "LEN"): 0 if w in ("empty", "beyond") else -1,
+            ("LEN", "ZERO"): 0 if w == "empty" else 1,
+            ("I", "ZERO"): 0 if w == "empty" else None,
+            ("KEY", "START"): {"before": -1, "on-start": 0, "inside": 1}.get(w),
+            ("KEY", "LAST"): 1 if w == "beyond" else None,
+            ("KEY", "END"): None,
+        }
+        if (a, b) in tab:
+            return tab[(a, b)]
+        if (b, a) in tab and tab[(b, a)] is not None:
+            return -tab[(b, a)]
+        if (a, b) == ("KEY", "LAST") or (b, a) == ("KEY", "LAST"):
+            return None
+        return None
+
+    def decide(self, term, node, env, user, ctx):
+        if self.world is None:
+            return None
+        if self.memo is not None and self.memo[0] != "?":
+            kf = self._entry(self.memo[0])
+            key = ("p", self.root_params[1]) if len(self.root_params) > 1 else None
+            if term[0] == "cmp" and term[1] in ("Eq", "NotEq") and {term[2], term[3]} == {kf, key}:
+                # INV: the remembered key was found before, so it cannot equal a key that is in no interval
+                if self.world not in ("on-start", "inside"):
+                    return term[1] == "NotEq"
+                hit = self.pack(env, 0, tuple(sorted(set(user or ()) | {"memo-hit"})))
+                plain = self.pack(env, 0, user)
+                return ((hit,), (plain,)) if term[1] == "Eq" else ((plain,), (hit,))
+            if term[0] == "cmp" and term[1] in ("Is", "IsNot") and term[3] == ("c", None) and term[2] == kf:
+                return ((self.pack(env, 0, user),), (self.pack(env, 0, user),))
+        r = self._decide(term)
+        if r is None:
+            self.undecided.append(src(node))
+            flagged = self.pack(env, 0, tuple(sorted(set(user or ()) | {"undecided"})))
+            return ((flagged,), (flagged,))
+        return r
+
+    def _decide(self, term):
+        w = self.world
+        if term[0] == "not":
+            r = self._decide(term[1])
+            return None if r is None else (not r)
+        if term[0] == "cmp":
+            op, a, b = term[1], self._role(term[2]), self._role(term[3])
+            if a is None or b is None:
+                return None
+            o = self._order(a, b)
+            if o is None:
+                # KEY vs LAST in a hit world: key <= last end is all that is known
+                if {a, b} == {"KEY", "LAST"} and w in ("before", "on-start", "inside"):
+                    gt = (op == "Gt" and a == "KEY") or (op == "Lt" and a == "LAST")
+                    le = (op == "LtE" and a == "KEY") or (op == "GtE" and a == "LAST")
+                    if gt:
+                        return False
+                    if le:
+                        return True
+                return None
+            return {"Lt": o < 0, "LtE": o <= 0, "Gt": o > 0, "GtE": o >= 0, "Eq": o == 0, "NotEq": o != 0}.get(op)
+        # truthiness of an array / of its length
+        if term in (self.S, self.PERM, self.STARTS, self.VALUES):
+            return w != "empty"
+        if self._role(term) == "LEN":
+            return w != "empty"
+        return None
+
+    def is_none(self, term, env, user, ctx):
+        if self._is_C(term) or self._is_I(term):
+            return False          # positions in the arrays are integers
+        return super().is_none(term, env, user, ctx)
+
+    def on(self, kind, node, env, ver, user, ctx):
+        if kind == "call" and isinstance(node, ast.Call):
+            nm = ext_name(self.P, ctx.func, node) or ""
+            if nm.startswith("bisect."):
+                t = self.sym(node, env, ver, ctx)
+                args = tuple(self.sym(a, env, ver, ctx) for a in node.args)
+                self.bisects.add((nm, args))
+        if kind == "store" and isinstance(node, ast.Attribute) and self.memo is not None and ("h", node.attr) in env:
+            t = env[("h", node.attr)]
+            key = ("p", self.root_params[1]) if len(self.root_params) > 1 else None
+            self.memo_stores.add((node.attr, "KEY" if t == key else "V" if (self.V is not None and t == self.V) else
+                                  "NONE" if t == ("c", None) else "other"))
+        if self.world is None:
+            return None
+        if self.V is None and self.S is not None:
+            key = ("p", self.root_params[1]) if len(self.root_params) > 1 else None
+            I = ("call", "bisect.bisect_left", (self.S, key), 0)
+            self.V = ("sub", self.VALUES, ("sub", self.PERM, I, 0), 0)
+        if kind == "subscript" and isinstance(node, ast.Subscript):
+            t = self.sym(node, env, ver, ctx)
+            if t[0] == "sub":
+                base, idx = t[1], t[2]
+                if self.world in ("empty", "beyond") and base in (self.S, self.PERM, self.STARTS, self.VALUES) and self._is_I(idx):
+                    return RaiseExc(self.pack(env, ver, user), "IndexError")
+                if self.world == "empty" and base in (self.S, self.PERM, self.STARTS, self.VALUES) and idx[0] == "c":
+                    return RaiseExc(self.pack(env, ver, user), "IndexError")
+        return None
 
 
 def r4_derived(prog, rep: Report, im):
     rep.rule("C16.R4", "`in` is defined by lookup (True after self[key], False in the KeyError handler); len counts the "
              "intervals; iteration walks the end-sorted permutation yielding ((start, end), value)", floor=3)
-    f = prog.method_view(im, "__contains__")
+    f = prog.resolve(im, "__contains__")
     rep.fn(f)
     key = f.params[1]
-    ok = False
-    why = "no try/except around self[key]"
-    for n in walk_own(f.node):
-        if isinstance(n, ast.Try):
-            looks = [s for s in ast.walk(ast.Module(body=n.body, type_ignores=[])) if isinstance(s, ast.Subscript)
-                     and src(s.value) == f.self_name and src(s.slice) == key]
-            rets_body = [s for s in n.body + n.orelse if isinstance(s, ast.Return)]
-            hs = [h for h in n.handlers if h.type is not None and src(h.type) == "KeyError"]
-            if looks and rets_body and const_value(rets_body[-1].value) is True and len(n.handlers) == 1 and hs \
-                    and len(hs[0].body) == 1 and isinstance(hs[0].body[0], ast.Return) \
-                    and const_value(hs[0].body[0].value) is False:
-                ok = True
-            elif looks:
-                why = "the handler is not `except KeyError: return False` / the try does not return True"
-    rep.check("C16.R4", f, "contains-by-lookup", ok, "try: self[key]; return True / except KeyError: return False", why,
-              scenario="`key in m` and m[key] disagree: a miss propagates as an exception or a hit reports False")
+    # path analysis: True is returned only after self[key] completed, False only from a KeyError handler of that look-up
+    cl = _ContainsPaths(key)
+    it = Interp(prog, cl)
+    ex = it.run(f, {(False, None)}, im)
+    if it.unrecognised:
+        rep.unrec("C16.R4", f, "contains-by-lookup", "; ".join(it.unrecognised))
+    else:
+        rets = cl.returns | {("fallthrough", s_) for s_ in ex.normal}
+        bad = []
+        seen_true = seen_false = False
+        unknown = []
+        for val, (looked, handler) in sorted(rets, key=repr):
+            if val is True:
+                seen_true = True
+                if not looked:
+                    bad.append("True is returned on a path that did not look the key up")
+                if handler is not None:
+                    bad.append(f"True is returned from the {handler} handler of the look-up")
+            elif val is False:
+                seen_false = True
+                if handler != "KeyError":
+                    bad.append("False is returned outside a KeyError handler of the look-up" if handler is None else
+                               f"False is returned from a handler for {handler}, not KeyError")
+            elif val == "fallthrough":
+                bad.append("a path ends without returning a truth value")
+            else:
+                unknown.append(val)
+        value_dep = [u for u in unknown if isinstance(u, str) and f"{f.self_name}[{key}]" in u.replace(" ", "")]
+        if value_dep:
+            rep.viol("C16.R4", f, "contains-by-lookup", f"the answer is computed from the stored value (`{value_dep[0]}`): membership "
+                     "is a matter of the key alone, and a miss still has to be turned into False",
+                     scenario="m = ImmutIntervalMap({(1, 5): None}); 3 in m is False although m[3] succeeds; 9 in m raises KeyError")
+        elif unknown and not bad:
+            rep.unrec("C16.R4", f, "contains-by-lookup", f"returned value is not a constant truth value: {unknown[0]}")
+        elif not bad and not (seen_true and seen_false):
+            rep.viol("C16.R4", f, "contains-by-lookup", "`in` does not answer both ways: " +
+                     ("no path returns True" if not seen_true else "no path returns False (a miss propagates as KeyError)"),
+                     scenario="`key in m` raises KeyError for a key in no interval")
+        else:
+            rep.check("C16.R4", f, "contains-by-lookup", not bad,
+                      "True after self[key] completed, False in the KeyError handler of that look-up (all paths)",
+                      "; ".join(sorted(set(bad))),
+                      scenario="`key in m` and m[key] disagree: a miss propagates as an exception or a hit reports False")
     ln = prog.method_view(im, "__len__")
     rep.fn(ln)
     ok = any(isinstance(r.value, ast.Call) and src(r.value.func) == "len" and r.value.args
              and dotted(r.value.args[0]) and dotted(r.value.args[0])[0] == ln.self_name for r in returns_of(ln.node))
     rep.check("C16.R4", ln, "len", ok, "len of one of the per-interval arrays", "__len__ does not count the intervals",
               scenario="len(m) differs from the number of intervals")
-    it = prog.method_view(im, "__iter__")
+    it = prog.resolve(im, "__iter__")
     rep.fn(it)
-    ok = False
     roles = interval_roles(prog.method_view(im, "__init__"))
-    for n in walk_own(it.node):
-        if isinstance(n, ast.For) and isinstance(n.iter, ast.Call) and src(n.iter.func) == "zip" and len(n.iter.args) == 2 \
-                and isinstance(n.target, ast.Tuple):
-            arrs = [src(a) for a in n.iter.args]
-            names = [x.id for x in n.target.elts]
-            by_arr = dict(zip(arrs, names))
-            if roles.get("perm") not in by_arr or roles.get("sorted") not in by_arr:
-                continue
-            i, e = by_arr[roles["perm"]], by_arr[roles["sorted"]]
-            ys = [y for y in ast.walk(n) if isinstance(y, ast.Yield)]
-            if len(ys) == 1 and isinstance(ys[0].value, ast.Tuple) and len(ys[0].value.elts) == 2:
-                iv, val = ys[0].value.elts
-                ok = isinstance(iv, ast.Tuple) and len(iv.elts) == 2 and isinstance(iv.elts[0], ast.Subscript) \
-                    and src(iv.elts[0].slice) == i and src(iv.elts[0].value) == roles.get("starts") and src(iv.elts[1]) == e \
-                    and isinstance(val, ast.Subscript) and src(val.slice) == i and src(val.value) == roles.get("values") or ok
-    if not ok and not ({"perm", "sorted", "starts", "values"} <= set(roles)):
+    if not ({"perm", "sorted", "starts", "values"} <= set(roles)):
         rep.unrec("C16.R4", it, "iter", f"the arrays of the map could not be told apart from the constructor (found {sorted(roles)})")
     else:
-        rep.check("C16.R4", it, "iter", ok, "yields ((start[i], end), value[i]) along the end-sorted permutation",
-                  "__iter__ does not yield ((start, end), value) aligned through the end-sorted permutation",
-                  scenario="iteration is not ascending or pairs an interval with another interval's value")
+        me = ("self",)
+        A = {k: ("attr", me, roles[k].split(".", 1)[1]) for k in ("perm", "sorted", "starts", "values")}
+        cl = _IterYields()
+        ip, ex = run_sym(prog, cl, it, im)
+        if ip.unrecognised:
+            rep.unrec("C16.R4", it, "iter", "; ".join(ip.unrecognised))
+        elif not cl.yields:
+            rep.viol("C16.R4", it, "iter", "__iter__ yields nothing", scenario="iteration over a non-empty map is empty")
+        else:
+            good, wrong, unknown = 0, [], []
+            for y in sorted(cl.yields, key=repr):
+                loops = {t[2] for t in _subterms(y) if t[0] == "elem"} | {t[1] for t in _subterms(y) if t[0] == "idx"}
+                if len(loops) != 1:
+                    unknown.append(y)
+                    continue
+                L = next(iter(loops))
+                pe = ("elem", A["perm"], L)
+                want = ("tuple", ("tuple", ("sub", A["starts"], pe, 0), ("elem", A["sorted"], L)), ("sub", A["values"], pe, 0))
+                if y == want:
+                    good += 1
+                elif all(t in A.values() for t in _subterms(y) if t[0] == "attr") and y[0] == "tuple":
+                    wrong.append(y)
+                else:
+                    unknown.append(y)
+            if wrong:
+                rep.viol("C16.R4", it, "iter", "__iter__ does not yield ((start, end), value) aligned through the end-sorted permutation: "
+                         f"it yields {_show_deep(wrong[0])}",
+                         scenario="iteration is not ascending or pairs an interval with another interval's value")
+            elif unknown:
+                rep.unrec("C16.R4", it, "iter", f"yielded value not understood: {_show_deep(unknown[0])}")
+            else:
+                rep.ok("C16.R4", it, "iter", "yields ((start[i], end), value[i]) along the end-sorted permutation, front to back")
